@@ -172,6 +172,22 @@ class Interp:
             return f
         if name.startswith("functools.wraps("):
             return f
+        if name.startswith("functools.lru_cache") or name.startswith("lru_cache") or name in ("functools.cache", "cache"):
+            # functools.lru_cache: results are memoised per argument tuple, looked up by hash and ==
+            cache = []
+            interp = self
+
+            def cached(it_, a, k, f=f):
+                key = (tuple(a), tuple(sorted(k.items())))
+                interp.models._hashcheck(it_, key[0])
+                for kk, vv in cache:
+                    if len(kk[0]) == len(key[0]) and all(x is y or it_.decide_eq(x, y) for x, y in zip(kk[0], key[0])) and kk[1] == key[1]:
+                        return vv
+                r = it_.call(f, list(a), dict(k))
+                cache.append((key, r))
+                return r
+
+            return SummaryFn("lru_cache:" + getattr(f, "name", "?"), cached)
         d = self.eval(dec, env)
         return self.call(d, [f], {})
 
